@@ -219,6 +219,30 @@ def k_conv(p):
     """C16: conversions."""
     import dsw
     fn = p["fn"]
+    if fn == "long-history":
+        n = int(p["L"])
+        a1 = [(i * 7 + i // 3) % 2 for i in range(n)]
+        a2 = list(a1)
+        for i in range(n // 2 - 5, n // 2 + 5):
+            a2[i] = 1 - a2[i]
+        import sys
+        for is_string in (True,):
+            for bits in (a1, a2):
+                val = 0
+                for b in bits:
+                    val = val * 2 + b
+                got, ex = call(dsw.bit_to_number, np.array(bits), is_string=is_string)
+                if ex:
+                    return True, "bit_to_number raised %s on a %d-bit array" % (ex, n)
+                old = sys.get_int_max_str_digits()
+                sys.set_int_max_str_digits(0)
+                try:
+                    same = (got if isinstance(got, str) else str(int(got))) == str(val)
+                finally:
+                    sys.set_int_max_str_digits(old)
+                if not same:
+                    return True, "bit_to_number on the %s %d-bit array (is_string=%s) returns a wrong number (%s...)" % ("second" if bits is a2 else "first", n, is_string, str(got)[:20])
+        return False, "ok"
     if fn == "bits":
         bits = p["bits"]
         L = len(bits)
@@ -283,6 +307,11 @@ def k_succ(p):
     import dsw
     k, v = int(p["k"]), int(p["v"])
     N = 4 ** k
+    if p.get("warm"):
+        for kk in (k + 1, max(1, k - 1)):
+            for vv in range(min(4 ** kk, N, 64)):
+                call(dsw.obtain_latters, vv, kk)
+                call(dsw.obtain_formers, vv, kk)
     la, ex1 = call(dsw.obtain_latters, v, k)
     fo, ex2 = call(dsw.obtain_formers, v, k)
     if ex1 or ex2:
@@ -347,6 +376,8 @@ def k_vt(p):
     """C07: set_vt vs the documented formula, and rejection of single edits by decode."""
     import dsw
     s, n = p["strand"], int(p["n_vt"])
+    for pv in p.get("prior") or []:
+        call(dsw.set_vt, s, int(pv))
     r, ex = call(dsw.set_vt, s, n)
     if ex is not None:
         return True, "set_vt(%r, %d) raised %s" % (s, n, ex)
@@ -435,6 +466,15 @@ def k_shuffles(p):
     import dsw
     k, seed = int(p["k"]), p.get("seed")
     np.random.seed(12345)
+    po = np.get_printoptions()
+    import io, contextlib
+    with contextlib.redirect_stdout(io.StringIO()):
+        call(dsw.create_random_shuffles, min(k, 2), seed, True)
+        call(dsw.create_random_shuffles, min(k, 2), seed, False)
+    po2 = np.get_printoptions()
+    np.set_printoptions(**po)
+    if po2 != po:
+        return True, "create_random_shuffles changed numpy's print options (%s): an effect other than on the random state" % sorted(x for x in po if po[x] != po2.get(x))
     t1, ex = call(dsw.create_random_shuffles, k, seed)
     if ex is not None:
         return True, "create_random_shuffles(%d, %r) raised %s" % (k, seed, ex)
